@@ -111,6 +111,8 @@ class DiscreteTimeInterpreter(TimeInterpreter):
             else:
                 b_unit = self.ast.unit
                 e_unit = self.ast.unit
+        elif len(node.end_unit) == 0:
+            e_unit = node.begin_unit
 
         b = b * self.ast.U[b_unit]
         e = e * self.ast.U[e_unit]
